@@ -156,6 +156,13 @@ def compile_tu(job):
            '-ftemplate-depth=2048'] + facts.variant_flags(variant) + [src]
     cmd.insert(1, '-ferror-limit=0' if cxx.startswith('clang') else '-fmax-errors=0')
     p = subprocess.run(cmd, stdout=subprocess.PIPE, stderr=subprocess.STDOUT, universal_newlines=True)
+    for attempt in range(2):
+        # a compiler that dies on a signal / internal error says nothing about the code: retry, then give up as broken
+        if p.returncode in (0, 1) and 'frontend command failed' not in p.stdout and 'internal compiler error' not in p.stdout:
+            break
+        p = subprocess.run(cmd, stdout=subprocess.PIPE, stderr=subprocess.STDOUT, universal_newlines=True)
+    if p.returncode not in (0, 1) or 'frontend command failed' in p.stdout or 'internal compiler error' in p.stdout:
+        return job, -99, [], ['compiler crashed: ' + p.stdout.strip().splitlines()[-1][:200] if p.stdout.strip() else 'compiler crashed']
     failed = []
     other_errors = []
     for line in p.stdout.splitlines():
@@ -188,7 +195,13 @@ def results(tier):
             for h in (False, True):
                 jobs.append((n, h, 'g++', 'c++11', 'inc'))
     key = common.sha(facts.repo_hash(), facts.witness_hash(), PRELUDE, gen_tu(3, True), repr(jobs))
-    cache_file = os.path.join(common.CACHE_DIR, 'nfam-%s-%s.json' % (tier, key))
+    cache_dir = common.CACHE_DIR if os.path.realpath(common.REPO) == os.path.realpath('/repo') else os.path.join(common.REPO, '.verif-facts')
+    os.makedirs(cache_dir, exist_ok=True)
+    if cache_dir == common.CACHE_DIR:
+        for f in os.listdir(cache_dir):
+            if f.startswith('nfam-%s-' % tier) and f != 'nfam-%s-%s.json' % (tier, key):
+                os.unlink(os.path.join(cache_dir, f))
+    cache_file = os.path.join(cache_dir, 'nfam-%s-%s.json' % (tier, key))
     if os.path.exists(cache_file):
         with open(cache_file) as f:
             raw = json.load(f)
@@ -198,10 +211,13 @@ def results(tier):
     res = {}
     # biggest first for better packing
     jobs.sort(key=lambda j: -j[0])
-    with cf.ThreadPoolExecutor(max_workers=16) as ex:
+    with cf.ThreadPoolExecutor(max_workers=int(os.environ.get('VERIF_JOBS', '12'))) as ex:
         for job, rc, failed, other in ex.map(compile_tu, jobs):
             res[job] = (rc, failed, other)
     os.makedirs(common.CACHE_DIR, exist_ok=True)
+    if any(v[0] == -99 for v in res.values()):
+        _cache[tier] = res
+        return res
     with open(cache_file, 'w') as f:
         json.dump([[list(k), list(v)] for k, v in res.items()], f)
     _cache[tier] = res
@@ -218,6 +234,8 @@ def report(run, tier, rule_prefix):
         foreign = [m for m in failed if not m.startswith('VERIF ' + rule_prefix)]
         kinds = obligations_count(n, headed)[rule_prefix]
         total += sum(kinds.values())
+        if rc == -99:
+            raise AnalysisBroken('the compiler crashed on an N-family unit (%s): %s' % (inst, (other or ['?'])[0]))
         if rc != 0 and not failed:
             # the unit does not compile for another reason
             run.ob(rule_prefix, inst + ' unit type-checks', False, detail=(other or ['compiler error'])[0],
